@@ -395,42 +395,50 @@ impl World {
 /// Start token is always chosen together with the agent's first step (`iS<op> i.`), which is the
 /// latest possible start. `crash_agent`: optionally one crash of that agent at every position.
 fn enumerate(w: &mut World, init: &str, progs: &[Vec<String>], crash_agent: Option<usize>, limit: usize, out: &mut dyn Write) -> usize {
-    // iterative DFS over choice sequences; a schedule prefix is replayed from scratch each time
+    // every execution runs to a leaf; `path` holds, per depth, the alternatives and the one taken
     let mut count = 0usize;
-    let mut stack: Vec<Vec<String>> = vec![vec![]];
-    while let Some(prefix) = stack.pop() {
+    let mut path: Vec<(Vec<Vec<String>>, usize)> = vec![];
+    loop {
         if count >= limit { break; }
-        // replay prefix
         w.reset(init);
         let mut obs = vec![];
         let mut next_op = vec![0usize; progs.len()];
         let mut crashed_used = false;
-        for tok in &prefix {
-            let o = w.apply(tok).unwrap();
-            if tok.as_bytes()[1] == b'S' { next_op[(tok.as_bytes()[0] - b'0') as usize] += 1; }
-            if tok.as_bytes()[1] == b'X' { crashed_used = true; }
-            obs.push(format!("{tok}={o}"));
-        }
-        // choices
-        let mut choices: Vec<Vec<String>> = vec![];
-        for i in 0..progs.len() {
-            if w.crashed[i] { continue; }
-            if w.at[i].is_some() {
-                choices.push(vec![format!("{i}.")]);
-                if crash_agent == Some(i) && !crashed_used { choices.push(vec![format!("{i}X")]); }
-            } else if next_op[i] < progs[i].len() {
-                choices.push(vec![format!("{i}S{}", progs[i][next_op[i]]), format!("{i}.")]);
+        let mut depth = 0usize;
+        loop {
+            if depth == path.len() {
+                let mut choices: Vec<Vec<String>> = vec![];
+                for i in 0..progs.len() {
+                    if w.crashed[i] { continue; }
+                    if w.at[i].is_some() {
+                        choices.push(vec![format!("{i}.")]);
+                        if crash_agent == Some(i) && !crashed_used { choices.push(vec![format!("{i}X")]); }
+                    } else if next_op[i] < progs[i].len() {
+                        choices.push(vec![format!("{i}S{}", progs[i][next_op[i]]), format!("{i}.")]);
+                    }
+                }
+                if choices.is_empty() { break; }
+                path.push((choices, 0));
             }
+            let toks = path[depth].0[path[depth].1].clone();
+            for tok in &toks {
+                let o = w.apply(tok).unwrap();
+                if tok.as_bytes()[1] == b'S' { next_op[(tok.as_bytes()[0] - b'0') as usize] += 1; }
+                if tok.as_bytes()[1] == b'X' { crashed_used = true; }
+                obs.push(format!("{tok}={o}"));
+            }
+            depth += 1;
         }
-        if choices.is_empty() {
-            writeln!(out, "{};{}", init, obs.join(" ")).unwrap();
-            count += 1;
-            continue;
+        writeln!(out, "{};{}", init, obs.join(" ")).unwrap();
+        count += 1;
+        // backtrack
+        while let Some((c, i)) = path.last() {
+            if i + 1 < c.len() { break; }
+            path.pop();
         }
-        for c in choices.into_iter().rev() {
-            let mut p = prefix.clone();
-            p.extend(c);
-            stack.push(p);
+        match path.last_mut() {
+            Some(l) => l.1 += 1,
+            None => break,
         }
     }
     count
